@@ -269,6 +269,13 @@ def ldsem_fidelity(L, info, driver, script):
     placed input section. Returns (compared, mismatches) or None when the case is outside what the semantics covers."""
     if any(degenerate(s) for s in emitted(info)) or not info.get("discard_wildcard", True):
         return None
+    # an allowlisted name that is also the name of an output section a segment defines: GNU ld merges the two
+    # statements into one output section; the Lean semantics keeps two records (outside what it claims)
+    outs = {st["outsec"] for st in parse_script(script) if st.get("outsec")}
+    for sg in emitted(info):
+        outs |= {"." + sg["name"], "." + sg["name"] + ".noload"}
+    if outs & set(info.get("allowlist", [])):
+        return None
     objs = object_table(L)
     used = {s["path"] for s in parse_script(script) if s["kind"] == "input"}
     objs = [o for o in objs if o[0] in used]
